@@ -4485,6 +4485,8 @@ class ParseCtx:
         i = 0
         while i < len(contents):
             if contents[i] != '\\':
+                if ord(contents[i]) > 0xff:
+                    raise IllegalParseTree("Character outside of the byte range in string " + escaped_string)
                 result += contents[i]
                 i += 1
             else:
